@@ -379,9 +379,21 @@ class TypesGen:
         def unit_of(n):
             return n[:-4] if n.endswith('Unit') and n[:-4] in T else None
         if tr is None:
-            if unit_of(st):
-                return   # inherent impl of the unit enum: VARIANTS array (K-reg)
-            raise LostAnchor(f'unexpected inherent impl in module {mod}: {h[:100]}')
+            owner = unit_of(st) or (st if st in T else None)
+            if owner is None:
+                raise LostAnchor(f'unexpected inherent impl in module {mod}: {h[:100]}')
+            body = ''
+            for x in c.children():
+                if x.kw == 'const' and x.name == 'VARIANTS':
+                    continue      # VARIANTS array (K-reg)
+                if x.kw != 'fn':
+                    raise LostAnchor(f'inherent impl of {st}: unexpected member {x.kw} {x.name}')
+                # an inherent method shadows the trait method of the same name at every concrete call site: keep it
+                # verbatim so that the generated operators are verified against what they really call
+                body += '    ' + self.marker(f'impl {st}::{x.name}', ['C01', 'C04', 'C08', 'C18'], x) + '\n' + self.fn_text(x) + '\n'
+            if body:
+                self.sink(owner).append(f'impl {st} {{\n{body}}}\n')
+            return
         if tr in ('fmt::Display', 'Display', 'core::fmt::Display', 'std::fmt::Display'):
             return   # R3
         if tr == 'Quantity' and not args and st in T:
@@ -459,6 +471,9 @@ class TypesGen:
         for need in ('new', 'amount', 'unit'):
             if need not in fns:
                 raise LostAnchor(f'impl Quantity for {X}: fn {need} missing')
+        extra = sorted(set(fns) - {'new', 'amount', 'unit'})
+        if extra:
+            raise LostAnchor(f'impl Quantity for {X} overrides default methods {extra} (not modelled)')
         if qt.single:
             unit_spec = f'{U}::{qt.variants[0]}'
             new_spec = f'{X} {{ amount }}'
@@ -484,6 +499,10 @@ class TypesGen:
         scale = next((x for x in ch if x.kw == 'fn' and x.name == 'scale'), None)
         if const is None or scale is None:
             raise LostAnchor(f'impl LinearScaledUnit for {U}: REF_UNIT or scale missing')
+        others = [x for x in ch if x.kw == 'fn' and x.name != 'scale']
+        for x in others:
+            if x.name not in ('ratio', 'is_ref_unit'):
+                raise LostAnchor(f'impl LinearScaledUnit for {U} overrides {x.name} (not modelled)')
         m = re.match(r'const REF_UNIT : Self = Self :: (\w+)$', const.header_norm())
         if not m:
             raise LostAnchor(f'{U}::REF_UNIT has unexpected shape')
@@ -531,7 +550,10 @@ class TypesGen:
                f'    open spec fn scale_spec(&self) -> AmountT {{\n        match self {{\n{spec_arms}        }}\n    }}',
                '    ' + const.text(),
                '    ' + self.marker(f'impl LinearScaledUnit for {U}::scale', ['C07', 'C01', 'C18'], scale, note='R6-literals'),
-               f'    {sig.prefix} -> {sig.ret} {body}', '}',
+               f'    {sig.prefix} -> {sig.ret} {body}']
+        for x in others:   # checked by Verus against the trait's contract of that method
+            out += ['    ' + self.marker(f'impl LinearScaledUnit for {U}::{x.name}', ['C01', 'C09'], x), self.fn_text(x)]
+        out += ['}',
                f'// exact rational value of each scale literal as written in the source ({self.label})',
                f'pub open spec fn scale_value_{X}(u: {U}) -> real {{\n    match u {{\n{val_arms}    }}\n}}',
                f'//@ob id={self.unit}:lemma_C07_ref_unit_scale_one_{X} props=C07,C05,C09 kind=lemma',
